@@ -134,8 +134,97 @@ func expandTinyOnce(s string, tiny map[string]tinyDef) string {
 	return b.String()
 }
 
+// Tiny templates: an emitter whose whole emission template is a short piece sequence without conditionals
+// (drToCase = "default: " ⟨p0(p1)⟩ " ") is a spelling too: a dynamic piece ⟨name(args)⟩ of another template is
+// replaced by that sequence, on both sides.
+func (f *FC) tinyTemplates() map[string]tinyDef {
+	if f.tinyTpl != nil {
+		return f.tinyTpl
+	}
+	f.tinyTpl = map[string]tinyDef{}
+	sh := newShaper(f)
+	for _, fn := range f.Prog.Funcs {
+		if !fn.Generated || fn.Decl == nil || fn.Decl.Recv != nil || len(fn.Params) == 0 || strings.HasPrefix(fn.Name, "New_") {
+			continue
+		}
+		if reachesItself(f.Prog, fn) {
+			continue
+		}
+		var t string
+		func() {
+			defer func() { recover() }()
+			t, _ = sh.Template(fn.Name)
+		}()
+		if t == "" || len(t) > 110 || !strings.Contains(t, "\"") {
+			continue
+		}
+		bad := false
+		for _, k := range []string{"?(", "match(", "!⟨", "⇒", "seq[", "opaque", "$", "<msg>"} {
+			if strings.Contains(t, k) {
+				bad = true
+			}
+		}
+		if bad || strings.Contains(t, fn.Name+"(") {
+			continue
+		}
+		f.tinyTpl[fn.Name] = tinyDef{len(fn.Params), t}
+	}
+	return f.tinyTpl
+}
+
+func (f *FC) expandTinyTemplates(s string) string {
+	if !strings.Contains(s, "⟨") {
+		return s
+	}
+	tt := f.tinyTemplates()
+	if len(tt) == 0 {
+		return s
+	}
+	const open, cl = "⟨", "⟩"
+	for round := 0; round < 4; round++ {
+		changed := false
+		var b strings.Builder
+		i := 0
+		for i < len(s) {
+			if strings.HasPrefix(s[i:], open) {
+				j := i + len(open)
+				k := j
+				for k < len(s) && isWordChar(s[k]) {
+					k++
+				}
+				name := s[j:k]
+				if def, ok := tt[name]; ok && k < len(s) && s[k] == '(' {
+					if e := matchingClose(s, k); e > 0 && strings.HasPrefix(s[e+1:], cl) {
+						args := splitTop(s[k+1:e], ',')
+						full := len(args) == def.params
+						for a := range args {
+							args[a] = strings.TrimSpace(args[a])
+							if args[a] == "_" || args[a] == "" {
+								full = false
+							}
+						}
+						if full {
+							b.WriteString(tinyParamRe.ReplaceAllStringFunc(def.body, func(m string) string { return args[int(m[1]-'0')] }))
+							i = e + 1 + len(cl)
+							changed = true
+							continue
+						}
+					}
+				}
+			}
+			b.WriteByte(s[i])
+			i++
+		}
+		s = b.String()
+		if !changed {
+			break
+		}
+	}
+	return s
+}
+
 // canon: the canonical text of a printed form of this package (tiny helpers expanded, diagnostics and shape
 // canonicalised).
 func (f *FC) canon(s string) string {
-	return canonDiag(f.expandTiny(s))
+	return canonDiag(f.expandTiny(f.expandTinyTemplates(s)))
 }
